@@ -421,7 +421,7 @@ def calls_of(group, tier):
     raise KeyError(group)
 
 
-THREADSAFE = ("blobproperties", "bloboverlaps", "blob_moments", "sparse_is_sorted", "sparse_connectedpixels", "sparse_connectedpixels_splat",
+THREADSAFE = ("score_and_refine", "refine_assigned", "closest", "blobproperties", "bloboverlaps", "blob_moments", "sparse_is_sorted", "sparse_connectedpixels", "sparse_connectedpixels_splat",
               "sparse_blob2Dproperties", "sparse_smooth", "sparse_localmaxlabel", "sparse_overlaps", "compress_duplicates", "coverlaps",
               "tosparse_u16", "tosparse_u32", "tosparse_f32")
 
